@@ -587,6 +587,7 @@ int main(int argc, char** argv)
 {
     const char* cs = NULL; int plant = 0;
     for (int i = 1; i < argc; i++) {
+        if (!strcmp(argv[i], "--callmode")) { w_set_callmode((uint64_t)atoi(argv[++i])); continue; }
         if (!strcmp(argv[i], "--worldinfo")) { printf("model=%llu big=%llu\n", (unsigned long long)w_world_model(), (unsigned long long)w_world_id()); return 0; }
         if (!strcmp(argv[i], "--suite")) g_suite = argv[++i];
         else if (!strcmp(argv[i], "--tier")) { i++; g_thorough = !strcmp(argv[i], "thorough"); g_lite = !strcmp(argv[i], "lite"); }
